@@ -410,6 +410,17 @@ def run(pid, tier, replay=None):
                     run_.clock.t = head_ts + off
                     found = False
                     interleave = rng.random() < 0.3
+                    if round_ == 0 and i % 2 == 0:
+                        # stale view, deterministically: the miner has asked once (its own copy of the chain state is the old head), the
+                        # network thread then extends the head, and the clock is not ahead of the new head's timestamp
+                        run_.clock.t = max(head_ts - 20, 1)
+                        run_.mine_request(rng.randrange(1 << 20))
+                        res, m = rt.step(force="", parent=head_abs)
+                        lab.append(["net_extends_head_after_a_request", res])
+                        head_ts = run_.node.chain().head().timestamp
+                        off = rng.choice([-5, -1, 0])
+                        run_.clock.t = head_ts + off
+                        interleave = False
                     for nonce in range(rng.randrange(1 << 20), (1 << 20) + 4000):
                         run_.mine_request(nonce)
                         if interleave and not found and rng.random() < 0.5:
